@@ -22,6 +22,7 @@ import vlib
 KNOWN = {
     "C03-empty-name": "an empty link name (CreateGroup(\"//\"), CreateDataset(\"/\")) is accepted; after the next insertion it reads back as that next name",
     "C03-nul-name": "a link name containing a NUL byte is accepted and reads back truncated at the NUL (can duplicate an existing name)",
+    "C03-hardlink-to-group": "a group reachable through two paths is listed with its children only under the first path visited; a hard link to an enclosing group makes the file unopenable (own-ancestor check)",
     "C03-hardlink-to-link-object": "a hard link whose target is a soft/external link object grows that object's header (RefCount message) beyond its exact-size allocation and overwrites the next structure",
     "C03-refcount-after-failed-hardlink": "a CreateHardLink that fails in linkToParent (duplicate name / full group) leaves the target's stored reference count one too high when it was 1 before",
 }
@@ -475,12 +476,14 @@ def source_cfg():
     strict = ('childName == ""' in link_body) and ("IndexByte(childName, 0)" in link_body)
     canon = 'path = strings.TrimSuffix(path, "/")' in cg
     rcfix = "hasRefCountMessage(oh)" in wr
-    return dict(heap_cap=int(m1.group(1)), snod_cap=int(m1.group(2)), soft_max=244, strict_names=strict, canon_group_key=canon, rc_rollback_fix=rcfix)
+    m3 = re.search(r"maxGroupDepth\s*=\s*(\d+)", src("file.go"))
+    return dict(heap_cap=int(m1.group(1)), snod_cap=int(m1.group(2)), soft_max=244, max_depth=int(m3.group(1)) if m3 else 0,
+                strict_names=strict, canon_group_key=canon, rc_rollback_fix=rcfix)
 
 
 def c_cfg(cfg):
-    return "{| heap_cap := %d; snod_cap := %d; soft_max := %d; strict_names := %s; canon_group_key := %s; rc_rollback_fix := %s |}" % (
-        cfg["heap_cap"], cfg["snod_cap"], cfg["soft_max"], vlib.cbool(cfg["strict_names"]), vlib.cbool(cfg["canon_group_key"]), vlib.cbool(cfg["rc_rollback_fix"]))
+    return "{| heap_cap := %d; snod_cap := %d; soft_max := %d; max_depth := %d; strict_names := %s; canon_group_key := %s; rc_rollback_fix := %s |}" % (
+        cfg["heap_cap"], cfg["snod_cap"], cfg["soft_max"], cfg["max_depth"], vlib.cbool(cfg["strict_names"]), vlib.cbool(cfg["canon_group_key"]), vlib.cbool(cfg["rc_rollback_fix"]))
 
 
 def c_link(case, res, groups, rcs, cfg):
@@ -488,6 +491,65 @@ def c_link(case, res, groups, rcs, cfg):
         ";".join(c_uop(o) for o in case["ops"]), ";".join(vlib.cbool(bool(r.get("ok"))) for r in res["results"]),
         ";".join('(%d, %s, [%s])' % (g, c_data(d), ";".join("(%d,%d)" % e for e in ents)) for g, d, ents in groups),
         ";".join("(%d,%d)" % x for x in rcs))
+
+
+def walk_ids(case, res):
+    """the Go walk with addresses renamed to model ids (root 0, object created by call i -> i+1)"""
+    addr2id = {}
+    for i, (op, r) in enumerate(zip(case["ops"], res["results"])):
+        if r.get("ok") and op["op"] in ("mkgroup", "mkds", "softlink", "extlink"):
+            addr2id[r["newaddr"]] = i + 1
+    w = res["walk"]
+    if w:
+        addr2id[w[0][2]] = 0
+    return [(p, {"g": 0, "d": 1}.get(k, 9), addr2id.get(a, a)) for p, k, a in w]
+
+
+def c_read(case, res, cfg):
+    if "walk" not in res:
+        exp = "None"
+    else:
+        exp = "(Some [%s])" % ";".join('(unhex "%s", %d, %d)' % x for x in walk_ids(case, res))
+    return 'read_ok %s [%s] %s' % (c_cfg(cfg), ";".join(c_uop(o) for o in case["ops"]), exp)
+
+
+def group_link_class(case, res):
+    """known class: a successful hard link whose target is a group (KNOWN_FINDINGS C03-hardlink-to-group)"""
+    groups = set()
+    for i, (op, r) in enumerate(zip(case["ops"], res["results"])):
+        if r.get("ok") and op["op"] == "mkgroup":
+            groups.add(r["newaddr"])
+        if r.get("ok") and op["op"] == "hardlink" and r["newaddr"] in groups:
+            return "C03-hardlink-to-group"
+    return None
+
+
+def reader_spec(case, res):
+    """the specification on what Open + Walk shows: exactly the created paths with the right kinds, hard
+    links sharing the object (soft/external links: class C03-soft-link, compared with the model only)"""
+    if any(r.get("ok") and op["op"] in ("softlink", "extlink") for op, r in zip(case["ops"], res["results"])):
+        return []
+    if "walk" not in res:
+        return ["the file written by these calls cannot be opened: %s" % res.get("open_error")]
+    orc = NSOracle()
+    for i, (op, r) in enumerate(zip(case["ops"], res["results"])):
+        if r.get("ok"):
+            orc.apply(i, op)
+    exp = []
+    def rec(gid, path):
+        exp.append((path.hex(), 0, gid))
+        for n, c in orc.ch[gid]:
+            if orc.kind[c] == "g":
+                rec(c, path + n + b"/")
+            else:
+                exp.append(((path + n).hex(), 1, c))
+    rec(0, b"/")
+    got = walk_ids(case, res)
+    if got != exp:
+        d = next((k for k in range(min(len(got), len(exp))) if got[k] != exp[k]), min(len(got), len(exp)))
+        return ["after reopen the walk differs from the tree built at entry %d: got %r, built %r" % (
+            d, got[d] if d < len(got) else None, exp[d] if d < len(exp) else None)]
+    return []
 
 
 def coq_mismatches(terms, name, chunk=150, workers=8):
@@ -515,8 +577,8 @@ def canon(case):
 def run_unit(ctx, n_struct=None, n_link=None):
     H, rng = ctx.harness, ctx.rng
     thorough = ctx.tier == "thorough"
-    n_struct = n_struct or (6000 if thorough else 700)
-    n_link = n_link or (2500 if thorough else 260)
+    n_struct = n_struct or (6000 if thorough else 500)
+    n_link = n_link or (2500 if thorough else 200)
     builddir = os.path.join(vlib.BUILD, "scratch")
     os.makedirs(builddir, exist_ok=True)
     viol, known, samples = [], {}, []
@@ -571,14 +633,20 @@ def run_unit(ctx, n_struct=None, n_link=None):
     fixed = [
         [D("/d"), L("/d", "/d"), L("/l", "/d"), L("/l", "/d"), G("/g"), D("/g/e"), L("/g/k", "/d")],
         [G("//"), G("/x"), G("/y")], [D("/"), D("/x")], [G("/a"), G("/a\x00b"), G("/c")], [G("/a/"), G("/a/b"), G("/a//b"), G("/a")],
-        [G("/g"), G("/g/x"), L("/h", "/g"), G("/h/y"), L("/g/x/up", "/g")],
+        [G("/g"), G("/g/x"), L("/h", "/g"), G("/h/y")], [G("/g"), G("/g/h"), L("/g/h/up", "/g")], [G("/g"), L("/g/self", "/g")],
+        [G("/g"), L("/a", "/g"), G("/g/x"), D("/g/x/d"), L("/g/l", "/g/x/d"), S("/g/s", "/nowhere")],
         [D("/n%d" % i) for i in range(34)], [D("/" + "n" * 126), D("/" + "m" * 126), D("/z"), D("/" + "k" * 2)],
         [G("/g")] + [D("/g/n%d" % i) for i in range(33)] + [L("/g/l", "/g/n1"), L("/l", "/g/n1")],
         [D("/d"), S("/s", "/d"), L("/t", "/s"), G("/s/x"), S("/" + "s" * 100, "/" + "t" * 143), S("/" + "s" * 100, "/" + "t" * 144)],
     ]
     lcases = [dict(mode="link", sb=2, ops=o, dir=builddir) for o in fixed] + gen_link(rng, n_link, builddir)
+    for c in lcases:
+        # the reader is compared where every linked object is a real object header
+        c["reopen"] = not any(o["op"] == "link" for o in c["ops"])
     lres = vlib.run_harness_parallel(H, "c03unit", lcases) if len(lcases) > 64 else vlib.run_harness(H, "c03unit", lcases)
     terms, idx = [], []
+    rterms, ridx = [], []
+    nopen_fail = 0
     judged = {}
     opmix = {}
     for i, (c, r) in enumerate(zip(lcases, lres)):
@@ -589,15 +657,35 @@ def run_unit(ctx, n_struct=None, n_link=None):
         judged[i] = (v, kn, in_spec, hl2l)
         terms.append(c_link(c, r, groups, rcs, cfg))
         idx.append(i)
+        if c.get("reopen") and not r.get("open_panic"):
+            rterms.append(c_read(c, r, cfg))
+            ridx.append(i)
+            nopen_fail += "walk" not in r
         distinct.add(("link", tuple((o["op"], o.get("path"), o.get("target"), o.get("name")) for o in c["ops"])))
         for o, x in zip(c["ops"], r["results"]):
             key = o["op"] + (":ok" if x.get("ok") else ":" + err_class(x.get("err", "")))
             opmix[key] = opmix.get(key, 0) + 1
     bad = set(idx[j] for j in coq_mismatches(terms, "link", chunk=60))
+    rbad = set(ridx[j] for j in coq_mismatches(rterms, "read", chunk=60))
     for i, (c, r) in enumerate(zip(lcases, lres)):
         if i not in judged:
             continue
         v, kn, in_spec, hl2l = judged[i]
+        if r.get("open_panic"):
+            v = v + ["reading the file back panicked: %s" % r["open_panic"]]
+        # reader against the specification: only for histories inside the specification's domain
+        gl = group_link_class(c, r)
+        if in_spec and c.get("reopen") and not v:
+            if gl:
+                kn = set(kn) | {gl}
+            else:
+                rv = reader_spec(c, r)
+                if rv:
+                    v = v + rv
+        if i in rbad and not v:
+            viol.append(dict(what="c03unit/link: the reader (Open + Walk) and the Coq model (read_tree) disagree", case=dict(mode="link", sb=c["sb"], ops=c["ops"]),
+                             impl=dict(walk=r.get("walk"), open_error=r.get("open_error")), nofail=True,
+                             correspondence="Model.GroupNSTie.read_ok (GroupNS.read_tree / load_object / load_group) vs group.go loadChildren/loadObject, file.go enterLoad"))
         if hl2l and i in bad and not v:
             kn = set(kn) | {"C03-hardlink-to-link-object"}
             bad.discard(i)
@@ -626,7 +714,7 @@ def run_unit(ctx, n_struct=None, n_link=None):
         (notes if repaired.get(k) else known_lines).append(line)
     return dict(violations=viol, known=known_lines, notes=notes, known_detail=known, evaluations=len(scases) + len(lcases),
                 distinct=len(distinct), samples=samples, struct_cases=len(scases), link_cases=len(lcases),
-                spec_checked_struct=nspec, link_calls=opmix, wall_s=round(time.time() - t0, 1), model_cfg=cfg,
+                spec_checked_struct=nspec, link_calls=opmix, reader_cases=len(rterms), reader_open_failures=nopen_fail, wall_s=round(time.time() - t0, 1), model_cfg=cfg,
                 rule="a case is distinct by (heap size, cycle period, names) resp. by its call sequence; every case is evaluated by Go, by the Coq model (vm_compute) and by the Python oracle")
 
 
@@ -662,6 +750,6 @@ if __name__ == "__main__":
     for v in res["violations"][:10]:
         print("VIOLATION", v["what"])
         print("   ", json.dumps(v.get("failing_input") or v.get("case"))[:600])
-    print({k: res[k] for k in ("evaluations", "distinct", "struct_cases", "link_cases", "wall_s")}, "violations=%d" % len(res["violations"]))
+    print({k: res[k] for k in ("evaluations", "distinct", "struct_cases", "link_cases", "reader_cases", "reader_open_failures", "wall_s", "model_cfg")}, "violations=%d" % len(res["violations"]))
     print("call mix:", res["link_calls"])
     sys.exit(1 if res["violations"] else 0)
